@@ -499,7 +499,19 @@ theorem sim_ev (cfg : Cfg) {m : Mode} {q : List Ns} {c : Cli} {v v' : View} {e :
                 simp only [hsv, Option.some.injEq, Prod.mk.injEq] at hs
                 obtain ⟨rfl, rfl⟩ := hs
                 exact sim_connect cfg h rfl p.nsp p.data sv hc.2 hsv
-            · cases hs
+            · split at hs
+              · rename_i hc
+                simp only [Bool.and_eq_true, decide_eq_true_eq, Bool.not_eq_true', List.contains_eq_mem,
+                  decide_eq_false_iff_not] at hc
+                simp only [Option.some.injEq, Prod.mk.injEq] at hs
+                obtain ⟨rfl, rfl⟩ := hs
+                have hns : c.namespaces = acc := h.ns1 hc.2
+                have hh : hasNs c (nsOr p.nsp) = true := by rw [hasNs, hns]; exact hc.1.2
+                have heq : handleConnect cfg c p.nsp p.data = (c, []) := by
+                  unfold handleConnect; simp [hh]
+                rw [heq]
+                exact ⟨h, rfl⟩
+              · cases hs
           · by_cases h4 : p.type = CONNECT_ERROR
             · have hb : isBinType p.type = false := by rw [h4]; decide
               have hpk : handlePkt cfg c p = handleError cfg c p.nsp p.data := by
